@@ -200,6 +200,7 @@ def check_C03(tier):
     c = Check("C03", tier, "model_checking")
     t = tier == "thorough"
     engine_run(c, "select", "SelectMenu", lines="Lines4", maxlines=4 if t else 3, maxfiles=2 if t else 1, modes=("batch", "incr"))
+    engine_run(c, "functions", "FunctionMenu", lines="LinesAgg", maxlines=3 if t else 2, maxfiles=1, modes=("incr", "batch"), tdefs=("plain",))
     c.rule, c.assumptions, c.exhaustive = ENGINE_RULE, ENGINE_ASSUME, True
     return c.finish()
 
@@ -253,7 +254,7 @@ def check_C19(tier):
 def check_C06(tier):
     c = Check("C06", tier, "model_checking")
     t = tier == "thorough"
-    engine_run(c, "noise", "CoreLimitMenu", lines="LinesNoise", maxlines=4 if t else 3, maxfiles=1, modes=("batch", "incr"))
+    engine_run(c, "noise", "CoreLimitMenu", lines="LinesNoise", maxlines=4 if t else 3, maxfiles=1, modes=("batch", "incr"), tdefs=("plain", "knn", "vdef", "bothnn"))
     engine_run(c, "noise-join", "JoinMenu", lines="LinesNoise", maxlines=2, maxfiles=1, tdefs=("plain", "knn"))
     laws_trace(c, 2 if t else 1, 300 if t else 100)
     c.rule, c.assumptions, c.exhaustive = ENGINE_RULE, ENGINE_ASSUME, True
@@ -458,7 +459,7 @@ def extract_check(pid, tier, sets, what):
     rep = vh_replay("extract", r.replay_path, "extract-" + pid, env_extra={"TZ": "UTC"})
     c.add_report(rep, reg(what, "extract"))
     # the admission rule and the extracted values as every statement kind sees them (Engine.tla over table variants)
-    engine_run(c, "admission", "CoreMenu", lines="LinesNoise", maxlines=2, maxfiles=1, tdefs=("plain", "knn", "vdef"))
+    engine_run(c, "admission", "CoreMenu", lines="LinesNoise", maxlines=2, maxfiles=1, tdefs=("plain", "knn", "vdef", "bothnn"))
     c.assumptions = ["the regex crate is trusted for matching itself; the capture groups of every generated line are cross-checked against it directly (a disagreement is a tool error)",
                      "REAL literals outside plain decimals, a TIMESTAMP whose month group did not take part, duplicate JSON keys and numbers beyond i64 read as REAL are left open (outcome not compared, only totality)",
                      "semantic comparison under TZ=UTC"]
